@@ -704,11 +704,17 @@ class EvalFunc:
                     self.local_sym_table[var_name] = EvalLocalVar(var_name)
                 continue
 
-            if var_name in nonlocal_names:
-                sym_table_idx = 1
-            else:
-                sym_table_idx = 0
-            for sym_table in reversed(ast_ctx.sym_table_stack[sym_table_idx:] + [ast_ctx.sym_table]):
+            #
+            # scoping is lexical: look in the enclosing function's variables (which include everything
+            # it shares with its own enclosing functions), not in the callers' or a class body's, and
+            # then, unless declared nonlocal, in the global symbol table
+            #
+            sym_tables = []
+            if ast_ctx.curr_func is not None:
+                sym_tables.append(ast_ctx.curr_func_sym_table)
+            if var_name not in nonlocal_names:
+                sym_tables.append(ast_ctx.global_sym_table)
+            for sym_table in sym_tables:
                 if var_name in sym_table and isinstance(sym_table[var_name], EvalLocalVar):
                     self.local_sym_table[var_name] = sym_table[var_name]
                     self.closure_names.add(var_name)
@@ -820,10 +826,10 @@ class EvalFunc:
         ast_ctx.sym_table = sym_table
         code_str, code_list = ast_ctx.code_str, ast_ctx.code_list
         ast_ctx.code_str, ast_ctx.code_list = self.code_str, self.code_list
-        prev_func = ast_ctx.curr_func
+        prev_func, prev_func_sym_table = ast_ctx.curr_func, ast_ctx.curr_func_sym_table
         save_user_locals = ast_ctx.user_locals
         ast_ctx.user_locals = {}
-        ast_ctx.curr_func = self
+        ast_ctx.curr_func, ast_ctx.curr_func_sym_table = self, sym_table
         del args, kwargs
         try:
             for arg1 in self.func_def.body:
@@ -833,7 +839,7 @@ class EvalFunc:
             # return None at end if there isn't a return
             return None
         finally:
-            ast_ctx.curr_func = prev_func
+            ast_ctx.curr_func, ast_ctx.curr_func_sym_table = prev_func, prev_func_sym_table
             ast_ctx.user_locals = save_user_locals
             ast_ctx.code_str, ast_ctx.code_list = code_str, code_list
             if prev_sym_table is not None:
@@ -946,6 +952,7 @@ class AstEval:
         self.local_sym_table: SymTable = {}
         self.user_locals: SymTable = {}
         self.curr_func: EvalFunc | None = None
+        self.curr_func_sym_table: SymTable | None = None
         self.filename = name
         self.code_str: str | None = None
         self.code_list: list[str] | None = None
@@ -2117,11 +2124,11 @@ class AstEval:
                 #
                 # find unbound names from the body of the function or class
                 #
-                inner_global, inner_names, inner_local = set(), set(), set()
+                inner_global, inner_names, inner_local, inner_nonlocal = set(), set(), set(), set()
                 for child in arg.body:
-                    await self.get_names_set(child, inner_names, None, inner_global, inner_local)
+                    await self.get_names_set(child, inner_names, inner_nonlocal, inner_global, inner_local)
                 for name in inner_names:
-                    if name not in inner_local and name not in inner_global:
+                    if (name not in inner_local or name in inner_nonlocal) and name not in inner_global:
                         names.add(name)
                 return
             elif cls_name == "Delete":
